@@ -67,7 +67,7 @@ Definition text_error (e : N) : bytes :=
    else err_text e) ++ crlf.
 
 (* [stat_sep] is what separates the STAT line from END in TextResponder.Stat *)
-Definition stat_sep : bytes := [10].
+Definition stat_sep : bytes := [13; 10].
 
 Definition render_text (c : rcall) : bytes :=
   match c with
